@@ -3,7 +3,7 @@
    judgment BOK on them, and the lemmas the compiler proof needs: sequencing,
    straight-line pieces, filling holes. *)
 From Coq Require Import ZArith NArith List Bool Lia ZifyBool ZifyNat ZifyN Floats.
-From EvyV Require Import Base Bytecode BytecodeProofs SymTab SymTabProofs Vm VmProofs Compile CompileProofs CompileWfProofs CompileJumpProofs.
+From EvyV Require Import Base Bytecode BytecodeProofs SymTab SymTabProofs Vm VmProofs Compile CompileSem CompileProofs CompileWfProofs CompileJumpProofs.
 Require Import EvyV.Gen.Opcodes.
 Import ListNotations.
 Open Scope N_scope.
